@@ -31,7 +31,7 @@ Proof.
   destruct (w_d1b _ (i_win _ I) _ _ Hsv) as (w & Hw & Hle). eauto 10.
 Qed.
 
-(* the stored window never decreases *)
+(* the stored window never decreases - for every storage outcome of every save *)
 Theorem C02_window_monotone :
   forall iv gap ls l s', guard < iv ->
     let s := reach iv gap ls in
@@ -55,27 +55,39 @@ Theorem C02_failed_save_keeps_memory :
     last_saved (mems s' m) = last_saved (mems s m).
 Proof. exact failed_upd_save_no_advance. Qed.
 
-(* The full statement (window monotone under EVERY fault) is false of the faithful model: a reset whose
-   save was applied but reported as failed leaves lastSavedTime behind, and the next periodic save lowers
-   the stored window (memory is still below it: safety is not affected, monotonicity is). *)
-Definition C02_window_monotone_full : Prop :=
-  forall iv gap ls l s', guard < iv ->
-    let s := exec step (init iv gap) ls in
-    step s l = Some s' -> opt_le (W s) (W s').
-
+(* Every storage outcome is inside `reach` (step_r = step): in particular a window save that was applied although
+   the client saw an error.  That case used to be excluded here and was refuted (a reset whose save was applied but
+   reported as failed left lastSavedTime behind, and the next periodic save lowered the stored window); since the
+   repair (saveUncertain / refreshLastSavedTime) the allocator reads its own window back before it decides about the
+   next save.  The old witness, as a regression: the window stays at 3608 s and the update needs no save. *)
 Definition unacked_reset_trace : list label :=
   [LElect 0; LSyncLoad 0; LSyncSave 0 5000000000 Ok; LSyncSet 0;
    LURBegin 0 (Z.shiftl 3605000 18); LURDecide 0; LURSave 0 ErrApplied;       (* reset to +1h: window 3608 s, client sees an error *)
-   LUpdRead 0 7999500000; LUpdDecide 0].                                       (* next periodic update: lastSaved (8 s) - next <= guard *)
+   LUpdRead 0 7999500000; LUpdDecide 0].                                       (* next periodic update reads the window back first *)
 
-Theorem C02_window_monotone_full_refuted : ~ C02_window_monotone_full.
+Example C02_unacknowledged_save_regression :
+  let s := exec step (init 3000000000 86400000) unacked_reset_trace in
+  (W s, last_saved (mems s 0%nat), unsure (mems s 0%nat), upd (mems s 0%nat), step s (LUpdSave 0%nat Ok)) =
+  (Some 3608000000000, Some 3608000000000, false, UPendSet 7999500000, None).
+Proof. vm_compute. reflexivity. Qed.
+
+(* a save that returned an error leaves the uncertainty mark, and nothing is decided about a later save before the
+   window was read back: in the deciding states the mark is off and lastSavedTime is the stored window *)
+Theorem C02_decision_uses_the_stored_window :
+  forall iv gap ls m, guard < iv ->
+    let s := reach iv gap ls in
+    owner s = Some m ->
+    (exists n, upd (mems s m) = UDecided n) \/ (exists p l, ur (mems s m) = RDeciding p l) ->
+    unsure (mems s m) = false /\ exists w, W s = Some w /\ last_saved (mems s m) = Some w.
 Proof.
-  intros H. specialize (H 3000000000 86400000 unacked_reset_trace (LUpdSave 0%nat Ok)).
-  cbv zeta in H.
-  assert (E : exists s', step (exec step (init 3000000000 86400000) unacked_reset_trace) (LUpdSave 0%nat Ok) = Some s' /\
-                         W (exec step (init 3000000000 86400000) unacked_reset_trace) = Some 3608000000000 /\ W s' = Some 10999500000).
-  { eexists. vm_compute. repeat split. }
-  destruct E as (s' & Hs & Hw & Hw'). specialize (H s' ltac:(reflexivity) Hs). rewrite Hw, Hw' in H. cbn in H. lia.
+  intros iv gap ls m Hc s Ho Hd. pose proof (inv_exec iv gap ls Hc) as I. pose proof (i_win _ I) as Wn.
+  destruct Hd as [(n & Hu)|(p & l & Hr)].
+  - pose proof (w_su _ Wn _ _ Hu) as Hun. split; [exact Hun|].
+    assert (Hsy : synced (mems s m) = true) by (apply synced_of_upd; rewrite Hu; reflexivity).
+    exact (w_d1 _ Wn _ Ho Hsy Hun).
+  - pose proof (w_sr _ Wn _ _ _ Hr) as Hun. split; [exact Hun|].
+    assert (Hsy : synced (mems s m) = true) by (apply synced_of_ur; rewrite Hr; reflexivity).
+    exact (w_d1 _ Wn _ Ho Hsy Hun).
 Qed.
 
 Print Assumptions C02_physical_below_stored_window.
@@ -83,4 +95,4 @@ Print Assumptions C02_memory_below_window.
 Print Assumptions C02_window_monotone.
 Print Assumptions C02_takeover_above_history.
 Print Assumptions C02_failed_save_keeps_memory.
-Print Assumptions C02_window_monotone_full_refuted.
+Print Assumptions C02_decision_uses_the_stored_window.
